@@ -1,0 +1,171 @@
+//go:build verif
+
+package main
+
+import (
+	"bufio"
+	"encoding/json"
+	"io"
+	"log"
+	"os"
+	"runtime"
+	"strings"
+	"sync"
+
+	"github.com/fabiolb/fabio/config"
+	"github.com/fabiolb/fabio/metrics"
+	"github.com/fabiolb/fabio/registry"
+	"github.com/fabiolb/fabio/route"
+)
+
+// Verification driver (build tag verif) for property C14. Only when FABIO_VERIF_DRIVER=c14watch is set, the
+// process runs the REAL watchBackend loop against a scripted registry backend and executes commands read from
+// stdin, one JSON object per line, answering each with one JSON line:
+//
+//	{"op":"reset"}            fresh loop (fresh locals), empty routing table
+//	{"op":"svc","text":T}     deliver T on the service channel
+//	{"op":"man","text":T}     deliver T on the manual channel
+//	{"op":"dump"}
+//
+// An update is delivered twice over an unbuffered channel: the second send returns only when the loop is back in
+// its select, i.e. has finished with the first. Every reply carries the canonical dump of route.GetTable() and
+// the arguments of registry.Default.Register made by the loop of this session (consecutive equal calls
+// collapsed: a rejected text is processed again by the second delivery). Nothing here changes the behaviour of
+// a normal fabio process.
+
+type verifC14Backend struct {
+	svc, man chan string
+	bound    chan struct{}
+	once     sync.Once
+	gid      string // goroutine of the loop bound to this backend
+	mu       sync.Mutex
+	calls    [][]string
+}
+
+// verifC14Gid names the calling goroutine. registry.Default is a global: the loop of a REPLACED session that is
+// still working on the second delivery of a rejected text calls Register on the backend of the current session;
+// only calls made by the session's own loop are recorded.
+func verifC14Gid() string {
+	b := make([]byte, 64)
+	f := strings.Fields(string(b[:runtime.Stack(b, false)]))
+	if len(f) >= 2 {
+		return f[1]
+	}
+	return ""
+}
+
+func (b *verifC14Backend) Register(s []string) error {
+	<-b.bound
+	if verifC14Gid() != b.gid {
+		return nil
+	}
+	b.mu.Lock()
+	defer b.mu.Unlock()
+	c := append([]string{}, s...)
+	if n := len(b.calls); n > 0 && len(b.calls[n-1]) == len(c) {
+		same := true
+		for i := range c {
+			same = same && b.calls[n-1][i] == c[i]
+		}
+		if same {
+			return nil
+		}
+	}
+	b.calls = append(b.calls, c)
+	return nil
+}
+func (b *verifC14Backend) registered() [][]string {
+	b.mu.Lock()
+	defer b.mu.Unlock()
+	return append([][]string{}, b.calls...)
+}
+func (b *verifC14Backend) DeregisterAll() error                      { return nil }
+func (b *verifC14Backend) Deregister(string) error                   { return nil }
+func (b *verifC14Backend) ManualPaths() ([]string, error)            { return nil, nil }
+func (b *verifC14Backend) ReadManual(string) (string, uint64, error) { return "", 0, nil }
+func (b *verifC14Backend) WriteManual(string, string, uint64) (bool, error) {
+	return false, nil
+}
+func (b *verifC14Backend) WatchServices() chan string { return b.svc }
+func (b *verifC14Backend) WatchManual() chan string {
+	// the loop fetches the manual channel after the service channel: it is bound to this backend now
+	b.once.Do(func() {
+		b.gid = verifC14Gid()
+		close(b.bound)
+	})
+	return b.man
+}
+func (b *verifC14Backend) WatchNoRouteHTML() chan string { return make(chan string) }
+
+func verifC14Start() *verifC14Backend {
+	route.SetTable(make(route.Table))
+	cfg := &config.Config{}
+	cfg.Registry.Backend = "verif"
+	cfg.Log.RoutesFormat = "delta"
+	be := &verifC14Backend{svc: make(chan string), man: make(chan string), bound: make(chan struct{})}
+	registry.Default = be
+	go watchBackend(cfg, metrics.DiscardProvider{}, make(chan bool))
+	// the loop reads the GLOBAL registry.Default when its goroutine first runs: hand the session out only when
+	// the loop holds this backend's channels
+	<-be.bound
+	return be
+}
+
+func init() {
+	if os.Getenv("FABIO_VERIF_DRIVER") != "c14watch" {
+		return
+	}
+	if os.Getenv("FABIO_VERIF_DEBUG") == "" {
+		log.SetOutput(io.Discard)
+	}
+	out := bufio.NewWriterSize(os.Stdout, 1<<20)
+	var be *verifC14Backend
+	reply := func(errText string) {
+		m := map[string]interface{}{"table": route.VerifDump(route.GetTable(), false)}
+		if be != nil {
+			m["registered"] = be.registered()
+		}
+		if errText != "" {
+			m = map[string]interface{}{"error": errText}
+		}
+		b, _ := json.Marshal(m)
+		out.Write(b)
+		out.WriteByte('\n')
+		out.Flush()
+	}
+	in := bufio.NewReaderSize(os.Stdin, 1<<20)
+	for {
+		line, err := in.ReadBytes('\n')
+		if len(line) > 1 {
+			var c struct {
+				Op   string `json:"op"`
+				Text string `json:"text"`
+			}
+			if jerr := json.Unmarshal(line, &c); jerr != nil {
+				reply(jerr.Error())
+			} else {
+				if be == nil || c.Op == "reset" {
+					be = verifC14Start()
+				}
+				switch c.Op {
+				case "reset", "dump":
+					reply("")
+				case "svc":
+					be.svc <- c.Text
+					be.svc <- c.Text
+					reply("")
+				case "man":
+					be.man <- c.Text
+					be.man <- c.Text
+					reply("")
+				default:
+					reply("unknown op " + c.Op)
+				}
+			}
+		}
+		if err != nil {
+			break
+		}
+	}
+	os.Exit(0)
+}
